@@ -1,330 +1,8 @@
-(* C09 - proofs about Model/Linkage.v against Spec/LinkSpec.v.
-
-   The main result is a forward simulation: a relation R between the compiler's state (declaration
-   records per scope, tentative list, output so far) and the specification's entity-centred state is
-   preserved by every history item on which the specification is defined and which is not one of the
-   two known deviations; at the end of the unit related states yield the same symbol table. *)
+(* C09 - headline theorem linkage_spec and corollaries (uses the simulation steps of LinkageSim*.v). *)
 From Coq Require Import List NArith Bool Lia Arith.
-From Cproc Require Import Lib.LinkageBase Model.Linkage Spec.LinkSpec.
+From Cproc Require Import Lib.LinkageBase Model.Linkage Spec.LinkSpec Proofs.LinkageSim Proofs.LinkageSimObj Proofs.LinkageSimFunc.
 Import ListNotations.
-
 Local Open Scope N_scope.
-
-(* ------------------------------------------------------------------ list facts *)
-Lemma fprior_last : forall A (parents : list (option A)),
-  (match parents with [_] => lookup parents | _ => last parents None end) = last parents None.
-Proof. intros A [|a [|b c]]; try reflexivity. destruct a; reflexivity. Qed.
-
-Lemma last_cons : forall A (x : A) l d, last (x :: l) d = if is_nil l then x else last l d.
-Proof. intros A x [|y l] d; reflexivity. Qed.
-
-Lemma is_nil_true : forall A (l : list A), is_nil l = true -> l = [].
-Proof. intros A [|x l]; simpl; congruence. Qed.
-
-(* ------------------------------------------------------------------ the simulation relation *)
-Definition tolink (l : slink) : linkage := match l with Internal => LIntern | External => LExtern end.
-Definition estorage (e : entity) : storage := if e_thread e then SThread else SStatic.
-
-Definition rel_linked (e : entity) (d : mdecl) : Prop :=
-  md_kind d = e_kind e /\ md_link d = tolink (e_link e) /\ md_asm d = e_asm e /\
-  md_value d = Some (VGlobal (e_asm e) 0 (e_thread e)) /\ md_storage d = estorage e.
-
-Definition frame_rel (ent : option entity) (md : option mdecl) (v : option vis) : Prop :=
-  match md, v with
-  | None, None => True
-  | Some d, Some VLinked => match ent with Some e => rel_linked e d | None => False end
-  | Some d, Some (VLocal t) =>
-    md_link d = LNone /\ md_kind d = KObj /\
-    match md_value d with Some (VGlobal None id t') => id <> 0 /\ t' = t | _ => False end
-  | Some d, Some VAuto => md_link d = LNone /\ md_kind d = KObj /\ md_value d = Some VTemp
-  | _, _ => False
-  end.
-
-Definition def_rel (e : entity) (d : mdecl) : Prop :=
-  match e_kind e, e_thread e, e_def e with
-  | KObj, false, NoDef => md_defined d = false /\ md_tentative d = false
-  | KObj, false, Tentative => md_defined d = false /\ md_tentative d = true
-  | KObj, false, Defined => md_defined d = true
-  | KObj, true, NoDef => md_defined d = false /\ md_tentative d = false
-  | KObj, true, _ => md_defined d = true /\ md_tentative d = false
-  | KFunc, _, NoDef => md_defined d = false /\ md_tentative d = false
-  | KFunc, _, Defined => md_defined d = true /\ md_tentative d = false
-  | KFunc, _, Tentative => False
-  end.
-
-Definition file_rel (ent : option entity) (fd : option mdecl) (tent : nat) : Prop :=
-  match fd, ent with
-  | Some d, Some e =>
-    md_link d <> LNone /\ def_rel e d /\ tent = (if md_tentative d then 1%nat else 0%nat) /\
-    (e_kind e = KFunc -> md_inlinedefn d = (slink_eqb (e_link e) External && e_allinline e))
-  | None, Some e => e_def e = NoDef /\ e_allinline e = true /\ tent = 0%nat
-  | None, None => tent = 0%nat
-  | Some _, None => False
-  end.
-
-Definition ent_wf (ent : option entity) : Prop :=
-  match ent with Some e => e_kind e = KFunc -> e_thread e = false | None => True end.
-
-(* what has been printed about the named symbol so far *)
-Definition emitted_now (ent : option entity) : list ldef :=
-  match ent with
-  | None => []
-  | Some e =>
-    match e_kind e, e_def e with
-    | KObj, Defined => [entity_def e]
-    | KObj, Tentative => if e_thread e then [entity_def e] else []
-    | KFunc, Defined =>
-      match e_link e with
-      | Internal => [entity_def e]
-      | External => if e_allinline e then [] else [entity_def e]
-      end
-    | _, _ => []
-    end
-  end.
-
-Record R (m : mstate) (s : sstate) : Prop := {
-  R_frames : Forall2 (frame_rel (ss_ent s)) (ms_frames m) (ss_frames s);
-  R_file : file_rel (ss_ent s) (last (ms_frames m) None) (ms_tent m);
-  R_wf : ent_wf (ss_ent s);
-  R_linked : obs_linked (ms_defs m) = emitted_now (ss_ent s);
-  R_anon : obs_anon (ms_defs m) = ss_anon s;
-  R_refs : map obs_ref (ms_refs m) = ss_refs s;
-  R_crash : ms_crash m = false
-}.
-
-Definition stable (ent ent' : option entity) : Prop :=
-  match ent, ent' with
-  | None, _ => True
-  | Some e, Some e' => e_kind e' = e_kind e /\ e_link e' = e_link e /\ e_asm e' = e_asm e /\ e_thread e' = e_thread e
-  | Some _, None => False
-  end.
-
-Lemma frame_rel_stable : forall ent ent' md v, stable ent ent' -> frame_rel ent md v -> frame_rel ent' md v.
-Proof.
-  intros ent ent' [d|] [[|t|]|]; simpl; auto.
-  destruct ent as [e|]; [|tauto]. destruct ent' as [e'|]; simpl; [|tauto].
-  unfold rel_linked, estorage. intros (A & B & C & D) (E & F & G & H & I). rewrite A, B, C, D. auto.
-Qed.
-
-Lemma frames_stable : forall ent ent' mf sf, stable ent ent' ->
-  Forall2 (frame_rel ent) mf sf -> Forall2 (frame_rel ent') mf sf.
-Proof. intros ent ent' mf sf S H. induction H; constructor; eauto using frame_rel_stable. Qed.
-
-Lemma stable_refl : forall ent, stable ent ent.
-Proof. intros [e|]; simpl; auto. Qed.
-
-Lemma lookup_rel : forall ent mf sf, Forall2 (frame_rel ent) mf sf -> frame_rel ent (lookup mf) (lookup sf).
-Proof.
-  intros ent mf sf H. induction H; simpl; auto.
-  destruct x as [d|], y as [v|]; simpl in *; auto; try tauto.
-Qed.
-
-Lemma last_rel : forall ent mf sf, Forall2 (frame_rel ent) mf sf -> frame_rel ent (last mf None) (last sf None).
-Proof.
-  intros ent mf sf H. induction H; simpl; auto.
-  destruct l as [|a l]; inversion H0; subst; auto.
-Qed.
-
-Lemma forall2_nil : forall ent mf sf, Forall2 (frame_rel ent) mf sf -> is_nil mf = is_nil sf.
-Proof. intros ent mf sf H; inversion H; reflexivity. Qed.
-
-(* ------------------------------------------------------------------ scope items and uses *)
-Lemma bump_small : forall n, n + 1 < two32 -> bump n = n + 1 /\ bump n <> 0.
-Proof.
-  intros n H. unfold bump. rewrite N.mod_small by exact H. split; [reflexivity|lia].
-Qed.
-
-Definition sim_goal (m : mstate) (s : sstate) (it : item) : Prop :=
-  match spec_step s it with
-  | SOk s' => exists m', step m it = MOk m' /\ R m' s' /\ (ms_nextid m <= ms_nextid m' <= ms_nextid m + 1)
-  | SReject => step m it = MReject
-  | SUnspec _ => True
-  | SIll => step m it = MIll
-  end.
-
-Lemma open_sim : forall m s, R m s -> ms_nextid m + 1 < two32 -> sim_goal m s IOpen.
-Proof.
-  intros [mf nid tent defs refs crash] [sf ent anon srefs] [Hf Hl Hw Ho Ha Hr Hc] Hb; simpl in *.
-  unfold sim_goal; simpl.
-  destruct (bump_small _ Hb) as [Hb1 _].
-  inversion Hf as [|x y mf' sf' Hxy Hrest]; subst; simpl; [reflexivity|].
-  inversion Hrest as [|x2 y2 mf2 sf2 Hxy2 Hrest2]; subst; simpl.
-  - eexists; split; [reflexivity|]. split; [|simpl; rewrite Hb1; lia].
-    constructor; simpl; auto. repeat constructor; auto.
-  - eexists; split; [reflexivity|]. split; [|simpl; lia].
-    constructor; simpl; auto. constructor; simpl; auto.
-Qed.
-
-Lemma close_sim : forall m s, R m s -> sim_goal m s IClose.
-Proof.
-  intros [mf nid tent defs refs crash] [sf ent anon srefs] [Hf Hl Hw Ho Ha Hr Hc]; simpl in *.
-  unfold sim_goal; simpl. subst crash.
-  inversion Hf as [|x1 y1 m1 s1 H1 R1]; subst; simpl; [reflexivity|].
-  inversion R1 as [|x2 y2 m2 s2 H2 R2]; subst; simpl; [reflexivity|].
-  inversion R2 as [|x3 y3 m3 s3 H3 R3]; subst; simpl; [reflexivity|].
-  inversion R3 as [|x4 y4 m4 s4 H4 R4]; subst; simpl.
-  - eexists; split; [reflexivity|]. split; [|simpl; lia]. constructor; simpl; auto.
-  - eexists; split; [reflexivity|]. split; [|simpl; lia]. constructor; simpl; auto.
-Qed.
-
-Lemma bump_sim : forall m s, R m s -> ms_nextid m + 1 < two32 -> sim_goal m s IBump.
-Proof.
-  intros [mf nid tent defs refs crash] [sf ent anon srefs] [Hf Hl Hw Ho Ha Hr Hc] Hb; simpl in *.
-  unfold sim_goal; simpl. destruct (bump_small _ Hb) as [Hb1 _].
-  eexists; split; [reflexivity|]. split; [|simpl; rewrite Hb1; lia]. constructor; simpl; auto.
-Qed.
-
-Lemma use_sim : forall m s, R m s -> sim_goal m s IUse.
-Proof.
-  intros [mf nid tent defs refs crash] [sf ent anon srefs] [Hf Hl Hw Ho Ha Hr Hc]; simpl in *.
-  unfold sim_goal, spec_step, step; cbv beta iota zeta delta [ss_frames ms_frames ss_ent ss_anon ss_refs ms_nextid ms_tent ms_defs ms_refs ms_crash].
-  pose proof (lookup_rel _ _ _ Hf) as Hlk.
-  inversion Hf as [|x1 y1 m1 s1 H1 R1]; subst; [reflexivity|].
-  inversion R1 as [|x2 y2 m2 s2 H2 R2]; subst; [reflexivity|].
-  remember (x1 :: x2 :: m2) as mf. remember (y1 :: y2 :: s2) as sf.
-  clear Heqmf Heqsf H1 H2 R1 R2.
-  destruct (lookup mf) as [d|], (lookup sf) as [[|t|]|]; simpl in Hlk; try tauto; try reflexivity.
-  - (* linked *)
-    destruct ent as [e|]; [|tauto]. destruct Hlk as (K & L & A & V & S). rewrite V.
-    eexists; split; [reflexivity|]. split; [|simpl; lia].
-    constructor; simpl; auto.
-  - (* block-scope static *)
-    destruct Hlk as (L & K & V). destruct (md_value d) as [[[a|] id t'|]|]; try tauto. destruct V as [Hid ->].
-    eexists; split; [reflexivity|]. split; [|simpl; lia].
-    constructor; simpl; auto. destruct (N.eqb_spec id 0); [tauto|reflexivity].
-  - (* automatic *)
-    destruct Hlk as (L & K & V). rewrite V.
-    eexists; split; [reflexivity|]. split; [|simpl; lia].
-    constructor; simpl; auto.
-Qed.
-
-(* ------------------------------------------------------------------ declarations *)
-(* how a declaration step re-establishes R: everything about the untouched parent scopes is packed here *)
-Definition intro_stmt (b : bool) (mfil : option mdecl) (ent : option entity) (mpar : list (option mdecl))
-           (spar : list (option vis)) (refs : list mref) : Prop :=
-  forall ent' d' v nid' tent' defs' anon',
-    stable ent ent' ->
-    frame_rel ent' (Some d') (Some v) ->
-    file_rel ent' (if b then Some d' else mfil) tent' ->
-    ent_wf ent' -> obs_linked defs' = emitted_now ent' -> obs_anon defs' = anon' ->
-    R {| ms_frames := Some d' :: mpar; ms_nextid := nid'; ms_tent := tent'; ms_defs := defs'; ms_refs := refs; ms_crash := false |}
-      {| ss_frames := Some v :: spar; ss_ent := ent'; ss_anon := anon'; ss_refs := map obs_ref refs |}.
-
-Lemma intro_stmt_holds : forall ent mpar spar refs,
-  Forall2 (frame_rel ent) mpar spar -> intro_stmt (is_nil mpar) (last mpar None) ent mpar spar refs.
-Proof.
-  intros ent mpar spar refs Hpar ent' d' v nid' tent' defs' anon' Hs Hfr Hfile Hw Ho Ha.
-  constructor; unfold ms_frames, ss_frames, ss_ent, ms_tent, ms_defs, ms_refs, ss_anon, ss_refs, ms_crash; auto.
-  - constructor; auto. eapply frames_stable; eauto.
-  - rewrite last_cons. assumption.
-Qed.
-
-Ltac red_all :=
-  cbv beta iota zeta delta [md_kind md_link md_defined md_tentative md_inlinedefn md_storage md_asm md_value
-                            e_link e_kind e_def e_allinline e_anyinline e_thread e_asm e_used
-                            ss_frames ss_ent ss_anon ss_refs fst snd] in *.
-
-Ltac unfold_all :=
-  unfold rel_linked, def_rel, estorage, frame_rel, file_rel, ent_wf, emitted_now, entity_def, stable,
-         specifier_reject, decl_linkage, inherit, apply_decl, redefinition, new_entity, with_def, with_inline, set_frame,
-         dspec_kind, dspec_asm, dspec_thread, dev_inline_late, dev_thread_tentative,
-         getlinkage, asm_clash, kind_clash, mkglobal, defineobj, mkdecl, set_storage, set_value, set_defined, set_tentative,
-         set_inlinedefn, set_cur, tolink, symname_of,
-         osc_static, osc_extern, osc_thread, osc_thread_only, fsc_static, fsc_extern,
-         slink_eqb, kind_eqb, link_eqb, storage_eqb, Bool.eqb, optN_eqb, negb, andb, orb in *.
-
-(* goal-directed case analysis: only what blocks reduction of the goal is destructed; hypotheses prune *)
-Ltac gbreak_step :=
-  match goal with
-  | H : False |- _ => contradiction
-  | H : True |- _ => clear H
-  | H : _ /\ _ |- _ => destruct H
-  | H : ?a = ?a |- _ => clear H
-  | H : ?a = ?a -> _ |- _ => specialize (H eq_refl)
-  | H : KObj = KFunc -> _ |- _ => clear H
-  | H : KFunc = KObj -> _ |- _ => clear H
-  | H : ?a = ?b |- _ => first [discriminate H | (is_var a; subst a) | (is_var b; subst b) | (injection H; clear H; intros)]
-  | H : ?a <> ?a |- _ => contradiction H; reflexivity
-  | H : ?a <> ?b, H' : ?a = ?b |- _ => contradiction
-  | |- context [N.eqb ?a ?b] => destruct (N.eqb_spec a b)
-  | |- context [match ?x with _ => _ end] => is_var x; destruct x
-  | |- context [if ?x then _ else _] => is_var x; destruct x
-  end.
-Ltac gbreak := repeat (red_all; gbreak_step).
-
-Ltac hbreak_step :=
-  match goal with
-  | H : context [match ?x with _ => _ end] |- _ => is_var x; destruct x
-  | H : context [if ?x then _ else _] |- _ => is_var x; destruct x
-  end.
-Ltac solve_prem := repeat split; intros; try reflexivity; try assumption; try congruence; try tauto; try lia.
-Ltac finish_prem :=
-  simpl; do 3 unfold_all; gbreak; simpl in *;
-  repeat match goal with H : obs_linked _ = _ |- _ => rewrite H end;
-  solve_prem; try (repeat (hbreak_step; gbreak); solve_prem).
-
-Ltac leaf1 Hintro :=
-  first
-    [ reflexivity
-    | exact I
-    | (eexists; split; [reflexivity|]; split; [apply Hintro; finish_prem | simpl; lia]) ].
-(* last resort: case analysis driven by the hypotheses (they must be contradictory) *)
-Ltac leaf Hintro :=
-  first [ leaf1 Hintro | (hbreak_step; gbreak; leaf Hintro) ].
-
-Lemma decl_obj_sim : forall m s sc asm init, R m s -> ms_nextid m + 1 < two32 ->
-  known_dev s (IDecl (DObj sc asm init)) = false -> sim_goal m s (IDecl (DObj sc asm init)).
-Proof.
-  intros [mf nid tent defs refs crash] [sf ent anon srefs] sc asm init [Hf Hl Hw Ho Ha Hr Hc] Hb Hdev; simpl in *.
-  destruct (bump_small _ Hb) as [Hb1 Hb2].
-  inversion Hf as [|msame ssame mpar spar Hsame Hpar]; subst; [reflexivity|].
-  pose proof (lookup_rel _ _ _ Hpar) as Hvis. pose proof (last_rel _ _ _ Hpar) as Hfil.
-  pose proof (forall2_nil _ _ _ Hpar) as Hnil.
-  pose proof (intro_stmt_holds _ _ _ refs Hpar) as Hintro.
-  rewrite last_cons in Hl.
-  unfold sim_goal, spec_step, step, spec_decl, decl_obj, decl_func, declcommon, known_dev in *.
-  cbv beta iota zeta delta [ss_frames ms_frames ss_ent ss_anon ss_refs ms_nextid ms_tent ms_defs ms_refs ms_crash] in *.
-  unfold label_ok, decl_linkage, inherit. cbv beta iota zeta delta [ss_frames ss_ent].
-  change (lookup (ssame :: spar)) with (match ssame with Some d => Some d | None => lookup spar end).
-  rewrite fprior_last. rewrite last_cons. rewrite <- Hnil in *.
-  assert (Hnv : is_nil mpar = true -> lookup mpar = None /\ last mpar None = None /\ lookup spar = None /\ last spar None = None).
-  { intros Hn. rewrite Hn in Hnil. apply is_nil_true in Hn. symmetry in Hnil. apply is_nil_true in Hnil. subst. auto. }
-  remember (lookup mpar) as mvis. remember (lookup spar) as svis.
-  remember (last mpar None) as mfil. remember (last spar None) as sfil.
-  remember (is_nil mpar) as b.
-  clear Heqmvis Heqsvis Heqmfil Heqsfil Heqb Hnil Hpar Hf.
-  do 3 unfold_all.
-  destruct b; [destruct Hnv as (-> & -> & -> & ->); [reflexivity|]; clear Hvis Hfil | clear Hnv].
-  - gbreak. all: leaf Hintro.
-  - gbreak. all: leaf Hintro.
-Qed.
-
-Lemma decl_func_sim : forall m s sc isinl asm body, R m s -> ms_nextid m + 1 < two32 ->
-  known_dev s (IDecl (DFunc sc isinl asm body)) = false -> sim_goal m s (IDecl (DFunc sc isinl asm body)).
-Proof.
-  intros [mf nid tent defs refs crash] [sf ent anon srefs] sc isinl asm body [Hf Hl Hw Ho Ha Hr Hc] Hb Hdev; simpl in *.
-  destruct (bump_small _ Hb) as [Hb1 Hb2].
-  inversion Hf as [|msame ssame mpar spar Hsame Hpar]; subst; [reflexivity|].
-  pose proof (lookup_rel _ _ _ Hpar) as Hvis. pose proof (last_rel _ _ _ Hpar) as Hfil.
-  pose proof (forall2_nil _ _ _ Hpar) as Hnil.
-  pose proof (intro_stmt_holds _ _ _ refs Hpar) as Hintro.
-  rewrite last_cons in Hl.
-  unfold sim_goal, spec_step, step, spec_decl, decl_obj, decl_func, declcommon, known_dev in *.
-  cbv beta iota zeta delta [ss_frames ms_frames ss_ent ss_anon ss_refs ms_nextid ms_tent ms_defs ms_refs ms_crash] in *.
-  unfold label_ok, decl_linkage, inherit. cbv beta iota zeta delta [ss_frames ss_ent].
-  change (lookup (ssame :: spar)) with (match ssame with Some d => Some d | None => lookup spar end).
-  rewrite fprior_last. rewrite last_cons. rewrite <- Hnil in *.
-  assert (Hnv : is_nil mpar = true -> lookup mpar = None /\ last mpar None = None /\ lookup spar = None /\ last spar None = None).
-  { intros Hn. rewrite Hn in Hnil. apply is_nil_true in Hn. symmetry in Hnil. apply is_nil_true in Hnil. subst. auto. }
-  remember (lookup mpar) as mvis. remember (lookup spar) as svis.
-  remember (last mpar None) as mfil. remember (last spar None) as sfil.
-  remember (is_nil mpar) as b.
-  clear Heqmvis Heqsvis Heqmfil Heqsfil Heqb Hnil Hpar Hf.
-  do 3 unfold_all.
-  destruct b; [destruct Hnv as (-> & -> & -> & ->); [reflexivity|]; clear Hvis Hfil | clear Hnv].
-  - gbreak. all: leaf Hintro.
-  - gbreak. all: leaf Hintro.
-Qed.
 
 Lemma step_sim : forall m s it, R m s -> ms_nextid m + 1 < two32 -> known_dev s it = false -> sim_goal m s it.
 Proof.
@@ -651,161 +329,3 @@ Proof.
     + hb H; inversion H; simpl; auto.
 Qed.
 
-(* ------------------------------------------------------------------ unit-local names are unique *)
-(* mkglobal's counter: every number it hands out is larger than all earlier ones, so $.Lname.N names never repeat
-   (as long as the 32-bit counter does not wrap: at most two numbers are taken per history item) *)
-Definition val_id0 (d : mdecl) : Prop :=
-  md_link d <> LNone /\ match md_value d with Some (VGlobal _ id _) => id = 0 | _ => True end.
-
-Definition ids_ok (m : mstate) : Prop :=
-  Forall (fun id => id <= ms_nextid m) (local_ids (ms_defs m)) /\
-  NoDup (local_ids (ms_defs m)) /\
-  match last (ms_frames m) None with Some d => val_id0 d | None => True end.
-
-Lemma declcommon_file_linked : forall k asm st ex prior d,
-  declcommon [] k asm st ex prior = Some d -> md_link d <> LNone.
-Proof.
-  intros k asm st ex prior d H. unfold declcommon, getlinkage in H. simpl in H.
-  destruct prior as [p|].
-  - hb H; inversion H; subst. destruct (md_link d); simpl in *; congruence.
-  - hb H; inversion H; subst; simpl; congruence.
-Qed.
-
-Lemma forall_le_mono : forall l a b, a <= b -> Forall (fun id => id <= a) l -> Forall (fun id => id <= b) l.
-Proof. intros l a b Hab H. eapply Forall_impl; [|exact H]. simpl. intros; lia. Qed.
-
-Lemma nodup_fresh : forall l n id, Forall (fun x => x <= n) l -> NoDup l -> n < id -> NoDup (id :: l).
-Proof.
-  intros l n id Hf Hn Hlt. constructor; auto. intros Hin.
-  rewrite Forall_forall in Hf. specialize (Hf _ Hin). lia.
-Qed.
-
-Ltac hb_all :=
-  repeat (match goal with
-          | H : _ = _ |- _ => discriminate H
-          | H : MOk _ = MOk _ |- _ => inversion H; clear H; subst
-          | H : (_, _) = (_, _) |- _ => inversion H; clear H; subst
-          | H : Some _ = Some _ |- _ => inversion H; clear H; subst
-          | H : context [match ?x with _ => _ end] |- _ => destruct x eqn:?; simpl in *
-          | H : context [if ?x then _ else _] |- _ => destruct x eqn:?; simpl in *
-          end).
-
-Lemma ids_step : forall m it m', step m it = MOk m' -> ids_ok m -> ms_nextid m + 2 < two32 ->
-  ids_ok m' /\ ms_nextid m <= ms_nextid m' <= ms_nextid m + 2.
-Proof.
-  intros [fr nid tent defs refs crash] it m' H (Hle & Hnd & Hlast) Hb. unfold ids_ok. simpl in *.
-  assert (B1 : bump nid = nid + 1) by (unfold bump; rewrite N.mod_small; lia).
-  assert (B2 : bump (nid + 1) = nid + 2) by (unfold bump; rewrite N.mod_small; lia).
-  destruct it as [| |[sc asm init|sc i asm body]| |].
-  - unfold step in H. simpl in H. destruct fr as [|f [|g fr']]; try discriminate; inversion H; subst; simpl.
-    + rewrite B1. repeat split; auto; try lia. eapply forall_le_mono; [|eassumption]; lia.
-    + repeat split; auto; try lia.
-  - unfold step in H. simpl in H.
-    destruct fr as [|a [|b [|c [|d fr']]]]; try discriminate.
-    + destruct crash; try discriminate. inversion H; subst; simpl in *. repeat split; auto; lia.
-    + inversion H; subst. simpl ms_frames. simpl ms_defs. simpl ms_nextid. repeat split; auto; try lia.
-  - (* object declaration *)
-    unfold step, decl_obj in H. simpl in H.
-    destruct fr as [|prior parents]; try discriminate.
-    destruct (negb (is_nil parents) && osc_thread_only sc); try discriminate.
-    destruct (kind_clash prior KObj); try discriminate.
-    destruct (declcommon parents KObj asm (osc_static sc) (osc_extern sc) prior) as [d|] eqn:Ed; try discriminate.
-    assert (Hfile : parents = [] -> md_link d <> LNone) by (intros ->; eapply declcommon_file_linked; eauto).
-    assert (Hl' : forall d2, parents <> [] ->
-              match last (Some d2 :: parents) None with Some d => val_id0 d | None => True end).
-    { intros d2 Hp. rewrite last_cons. destruct parents; [congruence|]. simpl is_nil. cbv iota.
-      rewrite last_cons in Hlast. simpl is_nil in Hlast. exact Hlast. }
-    unfold mkglobal, defineobj, set_cur, set_storage, set_value, set_defined, set_tentative in H.
-    destruct parents as [|p ps].
-    + (* file scope *)
-      specialize (Hfile eq_refl). clear Hl'.
-      destruct (md_link d) eqn:EL; [congruence| |];
-        simpl in H; hb_all; simpl;
-        unfold val_id0; simpl; rewrite ?EL;
-        repeat split; auto; try lia; try congruence.
-    + specialize (Hl' ).
-      assert (Hl2 : forall d2, match last (Some d2 :: p :: ps) None with Some d => val_id0 d | None => True end)
-        by (intros; apply Hl'; congruence).
-      clear Hfile Hl'.
-      simpl in H. hb_all; simpl ms_defs; simpl ms_nextid; simpl ms_frames; simpl local_ids;
-        repeat match goal with |- context [N.eqb ?a ?b] => destruct (N.eqb_spec a b) end;
-        rewrite ?B1 in *;
-        repeat split; auto; try lia;
-        try (eapply forall_le_mono; [|eassumption]; lia);
-        try (constructor; [lia|eapply forall_le_mono; [|eassumption]; lia]);
-        try (eapply nodup_fresh; eauto; lia).
-  - (* function declaration *)
-    unfold step, decl_func in H. simpl in H.
-    destruct fr as [|prior parents]; try discriminate.
-    destruct (kind_clash prior KFunc); try discriminate.
-    destruct (negb (is_nil parents) && fsc_static sc); try discriminate.
-    destruct (declcommon parents KFunc asm (fsc_static sc) (fsc_extern sc) prior) as [d|] eqn:Ed; try discriminate.
-    assert (Hfile : parents = [] -> md_link d <> LNone) by (intros ->; eapply declcommon_file_linked; eauto).
-    unfold mkglobal, set_cur, set_value, set_defined, set_inlinedefn in H.
-    destruct parents as [|p ps].
-    + specialize (Hfile eq_refl).
-      destruct (md_link d) eqn:EL; [congruence| |];
-        simpl in H; hb_all; simpl;
-        unfold val_id0; simpl; rewrite ?EL; rewrite ?B1;
-        repeat split; auto; try lia; try congruence;
-        try (eapply forall_le_mono; [|eassumption]; lia).
-    + assert (Hl2 : forall d2, match last (Some d2 :: p :: ps) None with Some d => val_id0 d | None => True end).
-      { intros d2. rewrite last_cons. simpl is_nil. cbv iota. rewrite last_cons in Hlast. exact Hlast. }
-      clear Hfile.
-      simpl in H. hb_all; simpl ms_defs; simpl ms_nextid; simpl ms_frames; simpl local_ids;
-        repeat match goal with |- context [N.eqb ?a ?b] => destruct (N.eqb_spec a b) end;
-        rewrite ?B1, ?B2 in *;
-        repeat split; auto; try lia;
-        try (eapply forall_le_mono; [|eassumption]; lia);
-        try (constructor; [lia|eapply forall_le_mono; [|eassumption]; lia]);
-        try (eapply nodup_fresh; eauto; lia).
-  - unfold step in H. simpl in H. hb H; inversion H; subst; simpl; repeat split; auto; lia.
-  - unfold step in H. simpl in H. inversion H; subst; simpl. rewrite B1. repeat split; auto; try lia.
-    eapply forall_le_mono; [|eassumption]; lia.
-Qed.
-
-Lemma ids_steps : forall h m m', steps m h = MOk m' -> ids_ok m ->
-  ms_nextid m + 2 * N.of_nat (length h) < two32 -> ids_ok m'.
-Proof.
-  induction h as [|it h IH]; intros m m' H Hi Hb; simpl in H.
-  - inversion H; subst; auto.
-  - destruct (step m it) as [m1| | |] eqn:E; try discriminate.
-    simpl length in Hb.
-    destruct (ids_step _ _ _ E Hi) as [Hi1 Hn1]; [lia|].
-    eapply IH; eauto. lia.
-Qed.
-
-Lemma local_ids_app : forall a b, local_ids (a ++ b) = local_ids a ++ local_ids b.
-Proof.
-  induction a as [|[[x|] id t e|[x|] id e] a IH]; intros b; simpl; auto; destruct (N.eqb id 0); simpl; rewrite IH; auto.
-Qed.
-Lemma local_ids_rev : forall l, local_ids (rev l) = rev (local_ids l).
-Proof.
-  induction l as [|[[x|] id t e|[x|] id e] l IH]; simpl; auto; rewrite local_ids_app, IH; simpl;
-    try destruct (N.eqb id 0); simpl; auto using app_nil_r.
-Qed.
-
-Lemma flush_ids : forall n d defs d' defs', val_id0 d -> flush n d defs = Some (d', defs') -> local_ids defs' = local_ids defs.
-Proof.
-  intros [|n] d defs d' defs' [Hl Hv] H; simpl in H.
-  - inversion H; auto.
-  - destruct (md_defined d) eqn:Ed.
-    + rewrite flush_defined in H by assumption. inversion H; auto.
-    + unfold defineobj in H.
-      destruct (md_storage d); destruct (md_value d) as [[a id t|]|]; try discriminate;
-        rewrite flush_defined in H by reflexivity; inversion H; subst; auto; simpl; destruct a; reflexivity.
-Qed.
-
-Theorem local_names_unique : forall h defs refs,
-  2 * N.of_nat (length h) < two32 -> run_events h = FAccept defs refs -> NoDup (local_ids defs).
-Proof.
-  intros h defs refs Hb Hr. unfold run_events in Hr.
-  destruct (steps init_state h) as [m| | |] eqn:E; try discriminate.
-  assert (H0 : ids_ok init_state) by (unfold ids_ok; simpl; repeat split; auto; constructor).
-  pose proof (ids_steps _ _ _ E H0) as (Hle & Hnd & Hlast); [simpl; lia|].
-  unfold finish in Hr.
-  destruct (ms_frames m) as [|[d|] [|y l]]; try discriminate; simpl in Hlast.
-  - destruct (flush (ms_tent m) d (ms_defs m)) as [[d' defs']|] eqn:F; try discriminate.
-    inversion Hr; subst. rewrite local_ids_rev. apply NoDup_rev. rewrite (flush_ids _ _ _ _ _ Hlast F). assumption.
-  - inversion Hr; subst. rewrite local_ids_rev. apply NoDup_rev. assumption.
-Qed.
